@@ -287,7 +287,9 @@ def sim_kwargs(req, default_ua):
             kw['params'] = {}
     elif pd is not None:
         # documented: params= dict, lists repeated (params_csv=False) or comma-joined (params_csv=True)
-        kw['params'], kw['params_csv'] = pd
+        kw['params'] = pd[0]
+        if pd[1] or st.get('params_csv_explicit'):
+            kw['params_csv'] = pd[1]      # documented default: False (repeat the key for every list item)
     elif req['query'] or st.get('empty_query_arg'):
         kw['query_string'] = req['query']
         if st.get('params_empty'):
